@@ -366,10 +366,19 @@ def spec_cidr_match(ck):
         v = ctx.args[0]
         return C.mk_result(ctx.ex, ok=v.fields[0])
 
+    def text_of(ctx):
+        t = ctx.args[0]
+        for _ in range(4):
+            if isinstance(t, Ref):
+                t = ctx.ex.deref(ctx.st, t)
+        return t
+
     def parse_ip(ctx):
+        ctx.st.trace.append(('parsed-as-address', text_of(ctx)))
         return Agg('Result', {}, simp(z3.If(ip_ok, BV(0, 64), BV(1, 64))), {0: {0: ipaddr}, 1: {0: Opaque('AddrParseError', 'e')}}, ctx.ex.si.enums['Result'])
 
     def parse_cidr(ctx):
+        ctx.st.trace.append(('parsed-as-prefix', text_of(ctx)))
         return Agg('Result', {}, simp(z3.If(cidr_ok, BV(0, 64), BV(1, 64))), {0: {0: Opaque('AnyIpCidr', 'the-cidr')}, 1: {0: Opaque('NetworkParseError', 'e')}}, ctx.ex.si.enums['Result'])
 
     def contains(ctx):
@@ -402,6 +411,13 @@ def spec_cidr_match(ck):
         r = s.ret
         ok, v = _ok_payload(r)
         ex.prove(s, 'C02/cidr_match/never-fails-on-string-arguments', ok)
+        # what the two library parsers are given is what the rule wrote: the arguments, unmodified (the parsers are the reference
+        # for "standard CIDR" and for addresses -- a text edited on the way in is another prefix)
+        for ev, arg, what in (('parsed-as-address', s_ip, 'address'), ('parsed-as-prefix', s_cidr, 'prefix')):
+            for e in s.trace:
+                if e[0] == ev:
+                    same = C.bytes_equal(ex, s, e[1], arg) if isinstance(e[1], Bytes) else z3.BoolVal(False)
+                    ex.prove(s, 'C02/cidr_match/the-%s-argument-is-parsed-as-written' % what, same)
         if v is None or not isinstance(v, Agg) or not isinstance(v.fields.get(0), Bool):
             continue
         n += 1
@@ -428,6 +444,8 @@ def cidr_replay_plan(ob):
         return None
     full = 32 if ip.version == 4 else 128
     cidrs = ['%s/%d' % (ip, full), '0.0.0.0/0', '::/0', '0.0.0.0/8', '::/96', '::ffff:0:0/96', '::1/128', '127.0.0.0/8']
+    # prefixes written without a length (a single host), and the crate's `any`
+    cidrs += [str(ip), 'any', '2001:db8::', '10.0.0.0']
     for p in (8, 16, 24, 64, 96, 120):
         if p < full:
             cidrs.append(str(ipaddress.ip_network('%s/%d' % (ip, p), strict=False)))
